@@ -1303,3 +1303,71 @@ Theorem cc_chain_es period ops pid : pid <> C_PIDPAT -> pid <> C_pmtStartPID ->
 Proof.
   intros H1 H2 Hnp Hen. apply lifetimes_chain; try assumption; [apply new_muxer_inv|exact I|reflexivity].
 Qed.
+
+(* ---------------- PAT and PMT counters over a run ---------------- *)
+
+Definition table_cc (pat : bool) (s : mstate) : wrappingCounter := if pat then ms_pat_cc s else ms_pmt_cc s.
+Definition table_pid (pat : bool) : Z := if pat then C_PIDPAT else C_pmtStartPID.
+
+Lemma step_table_effect pat s o s' p : ms_inv s -> mux_step_part s o = (s', p) -> pa_res p <> Panic -> op_entry_ok o ->
+  exists k rest, payload_ccs (table_pid pat) (muxer_pkts o p) = ccs_from (table_cc pat s) k ++ rest /\
+                 (es_mem (table_pid pat) (ms_es s) = false -> rest = []) /\ table_cc pat s' = iter_inc k (table_cc pat s).
+Proof.
+  intros Hinv Hstep Hnp Hen.
+  destruct (step_tables_effect _ _ _ _ Hinv Hstep Hnp Hen) as (k & rpat & rpmt & H1 & H2 & H3 & H4 & H5 & H6).
+  destruct pat; cbn [table_pid table_cc]; [exists k, rpat|exists k, rpmt]; auto.
+Qed.
+
+Lemma table_cc_wf pat s : ms_inv s -> cc_wf (table_cc pat s).
+Proof. intros H. destruct pat; [apply (inv_pat_wf _ H)|apply (inv_pmt_wf _ H)]. Qed.
+
+Lemma tables_chain pat : forall ops s cur, ms_inv s -> chain16 cur -> tracks (table_cc pat s) cur ->
+  no_panic (snd (mux_run_parts s ops)) -> Forall op_entry_ok ops ->
+  Forall (fun st => es_mem (table_pid pat) (ms_es st) = false) (mux_states s ops) ->
+  chain16 (cur ++ emitted_ccs (table_pid pat) (combine ops (snd (mux_run_parts s ops)))).
+Proof.
+  induction ops as [|o r IH]; intros s cur Hinv Hch Htr Hnp Hen Hno.
+  - cbn. rewrite app_nil_r. exact Hch.
+  - rewrite mux_run_parts_cons in *. cbn [fst snd combine mux_states] in *. unfold emitted_ccs. cbn [map concat fst snd].
+    inversion Hnp as [|x xs Hp Hnp']; subst. inversion Hen as [|y ys Ho Hen']; subst. inversion Hno as [|z zs Hz Hno']; subst.
+    destruct (mux_step_part s o) as [s1 p] eqn:E. cbn [fst snd] in *.
+    pose proof (step_inv _ _ _ _ Hinv E Hp Ho) as Hinv1.
+    destruct (step_table_effect pat _ _ _ _ Hinv E Hp Ho) as (k & rest & HL & Hrest & Hs1).
+    rewrite (Hrest Hz), app_nil_r in HL. rewrite HL, app_assoc.
+    destruct (tracks_extend _ cur k (table_cc_wf pat s Hinv) Hch Htr) as [Hch' Htr'].
+    apply IH; try assumption. rewrite Hs1. exact Htr'.
+Qed.
+
+(* C05_cc for the tables: over a whole run the PAT (PMT) packets form one chain, provided no elementary stream was
+   ever configured on that PID *)
+Theorem cc_chain_tables pat period ops :
+  no_panic (snd (mux_run_parts (new_muxer period) ops)) -> Forall op_entry_ok ops ->
+  Forall (fun st => es_mem (table_pid pat) (ms_es st) = false) (mux_states (new_muxer period) ops) ->
+  chain16 (emitted_ccs (table_pid pat) (combine ops (snd (mux_run_parts (new_muxer period) ops)))).
+Proof.
+  intros Hnp Hen Hno. apply (tables_chain pat ops (new_muxer period) []); try assumption; [apply new_muxer_inv|exact I|].
+  intros H; congruence.
+Qed.
+
+(* C05_no_burn: from any state a run reaches, a call that emits no payload packet on a PID leaves that PID's
+   counter where it was *)
+Theorem no_burn period ops o s' p :
+  let s := fst (mux_run_parts (new_muxer period) ops) in
+  no_panic (snd (mux_run_parts (new_muxer period) ops)) -> Forall op_entry_ok ops -> op_entry_ok o ->
+  mux_step_part s o = (s', p) -> pa_res p <> Panic ->
+  (forall pid c, pid <> C_PIDPAT -> pid <> C_pmtStartPID -> es_cc pid s = Some c ->
+     payload_ccs pid (muxer_pkts o p) = [] -> removes pid o p = false -> es_cc pid s' = Some c) /\
+  (payload_ccs C_PIDPAT (muxer_pkts o p) = [] -> ms_pat_cc s' = ms_pat_cc s) /\
+  (payload_ccs C_pmtStartPID (muxer_pkts o p) = [] -> ms_pmt_cc s' = ms_pmt_cc s).
+Proof.
+  intros s Hnp Hen Ho Hstep Hp.
+  assert (Hinv : ms_inv s) by (apply run_inv; [apply new_muxer_inv|assumption|assumption]).
+  split; [|split].
+  - intros pid c H1 H2 Hc HL Hrm.
+    destruct (step_es_effect _ _ _ _ pid c Hinv Hstep Hp Ho H1 H2 Hc) as [(Hrm' & _)|(_ & k & HL' & Hs')]; [congruence|].
+    rewrite HL in HL'. symmetry in HL'. apply ccs_from_nil in HL'. subst k. exact Hs'.
+  - intros HL. destruct (step_table_effect true _ _ _ _ Hinv Hstep Hp Ho) as (k & rest & HL' & _ & Hs'). cbn [table_pid table_cc] in *.
+    rewrite HL in HL'. symmetry in HL'. apply app_eq_nil in HL'. destruct HL' as [HL' _]. apply ccs_from_nil in HL'. subst k. exact Hs'.
+  - intros HL. destruct (step_table_effect false _ _ _ _ Hinv Hstep Hp Ho) as (k & rest & HL' & _ & Hs'). cbn [table_pid table_cc] in *.
+    rewrite HL in HL'. symmetry in HL'. apply app_eq_nil in HL'. destruct HL' as [HL' _]. apply ccs_from_nil in HL'. subst k. exact Hs'.
+Qed.
